@@ -39,6 +39,8 @@ def pool_trees():
         # the rarer parameter classes: odd/even n >= 4 (of a product that is negative at p2), bases below and at one
         "e10": ("Add", [("NthRoot", s, 5), ("NthRoot", ("Add", [("NthPower", X, 2), ("Constant", 1)]), 4), ("Exponential", s, 0.5),
                         ("Exponential", Y, 1), ("NthPower", s, 7)]),
+        # a variable that occurs only linearly (its value never enters any partial), at p4 it is missing
+        "e12": ("Add", [("Multiply", [("Constant", 2), X]), Y, ("Constant", 3)]),
         "e11": ("Multiply", [("NthRoot", ("Negation", t), 7), ("Logarithm", ("NthPower", Y, 2), 0.5), ("NthRoot", X, 9)]),
     }
 
